@@ -252,7 +252,7 @@ def enabled_devs(prop: str) -> list:
 
 def validate_traces(module: str, events: list, prop: str, shards: int = 16, per_shard_max: int = 20000,
                     cfg: str | None = None, xmx: str = "3g", timeout: int = 3600, devs: list | None = None,
-                    min_per_shard: int = 200) -> dict:
+                    min_per_shard: int = 200, by: str | None = None) -> dict:
     """Stage C. Shard events, run the trace spec under TLC (one JVM per shard, -workers 1), collect verdicts.
 
     Returns dict(n, ok, known: {dev: [tids]}, violations: [(tid, clause...)], states, distinct).
@@ -265,7 +265,16 @@ def validate_traces(module: str, events: list, prop: str, shards: int = 16, per_
         return dict(n=0, ok=0, known={}, violations=[], states=0, distinct=0, wall=0.0)
     nsh = max(1, min(shards, (n + min_per_shard - 1) // min_per_shard))
     nsh = max(nsh, (n + per_shard_max - 1) // per_shard_max)
-    chunks = [events[i::nsh] for i in range(nsh)]
+    if by is None:
+        chunks = [events[i::nsh] for i in range(nsh)]
+    else:   # keep the events of one history together and in order
+        chunks = [[] for _ in range(nsh)]
+        keys = {}
+        for e in events:
+            k = keys.setdefault(e[by], len(keys) % nsh)
+            chunks[k].append(e)
+        chunks = [c for c in chunks if c]
+        nsh = len(chunks)
     wd = workdir()
     files = []
     for i, ch in enumerate(chunks):
